@@ -169,3 +169,29 @@ Theorem C05_max_min_guard_nonvacuous :
   o_res (m_op (OExt false) [VFix (-4611686018427387904); VFix 4611686018427387904]) = RVal (VFix (-4611686018427387904)).
 Proof. exact ext_examples. Qed.
 Print Assumptions C05_max_min_guard_nonvacuous.
+
+(* (12) isqrt (pkg/cl/isqrt.go after repo_fixes/C05-21, 23, 24; part of (1) inside the guard: every fixnum, negative
+   bignum objects, bignum objects whose root does not fit in 64 bits).  On EVERY non-negative bignum object, whatever the size of the
+   value it holds, the model returns the exact root (as a bignum object: value domain) and leaves the operand as
+   it was; and what S calls the root of n >= 0 is the largest integer r with r*r <= n.  Not covered: ratios and floats (slip
+   truncates the float root). *)
+Theorem C05_isqrt_value_exact : forall args,
+  value_domain OIsqrt args = true ->
+  exists so, s_out OIsqrt args = Some so /\
+    res_same_value (o_res so) (o_res (m_op OIsqrt args)) = true /\ o_args (m_op OIsqrt args) = args.
+Proof. exact isqrt_value_exact. Qed.
+Print Assumptions C05_isqrt_value_exact.
+Theorem C05_isqrt_spec_is_the_integer_root : forall n,
+  0 <= n -> exists r, s_op OIsqrt [(n, 1)] = RVal (canon_int r) /\ 0 <= r /\ r * r <= n < (r + 1) * (r + 1).
+Proof. exact isqrt_spec_root. Qed.
+Print Assumptions C05_isqrt_spec_is_the_integer_root.
+Theorem C05_isqrt_guard_nonvacuous :
+  in_domain OIsqrt [VFix 21] = true /\ in_domain OIsqrt [VFix (-9)] = true /\
+  in_domain OIsqrt [VFix 4611686018427387903] = true /\ in_domain OIsqrt [VBig (-100000000000000000000)] = true /\
+  m_op OIsqrt [VFix 4611686018427387903] = {| o_res := RVal (VFix 2147483647); o_args := [VFix 4611686018427387903] |} /\
+  in_domain OIsqrt [VBig 100000000000000000000] = false /\ value_domain OIsqrt [VBig 100000000000000000000] = true /\
+  in_domain OIsqrt [VBig 1361129467683753853853498429727072845824] = true /\
+  m_op OIsqrt [VBig 100000000000000000000] = {| o_res := RVal (VBig 10000000000); o_args := [VBig 100000000000000000000] |} /\
+  m_op OIsqrt [VBig 5] = {| o_res := RVal (VBig 2); o_args := [VBig 5] |}.
+Proof. exact isqrt_examples. Qed.
+Print Assumptions C05_isqrt_guard_nonvacuous.
